@@ -6,11 +6,11 @@ CHECK = {'level': 'exploration',
          'letters), a variant (per-character and whole-string case mapping, NFC/NFD per segment, mark swaps; every step certified by the independent '
          'pipeline) and a near miss (look-alike, changed mark, ZWJ, deletion ...), used by four sub-properties: cif_normalize; lookup of block / frame / '
          'scalar item / loop item / packet item; table keys; validity of arbitrary strings (invalid ingredients, lengths 2040..2100). Plus a code point '
-         'sweep (quick: 1/64 sample + boundary and class ranges; thorough: every code point U+0001..U+10FFFF incl. lone surrogates). non-trivial = '
+         'sweep (quick: 1/8 sample + boundary and class ranges; thorough: every code point U+0001..U+10FFFF incl. lone surrogates). non-trivial = '
          'variant differs from the base in both case and normalisation form, or base has >= 2 combining marks, or the string is invalid/unconstrained '
          'for a reason other than emptiness; distinct = hash of (mode, kind, strings)',
  'assumptions': ['U+FEFF inside a name/code/key and codes of 2044..2048 code points are unconstrained (either outcome accepted)',
-                 'C1 controls U+0080..U+009F are invalid per the statement; the library accepts them (F-C1CTRL): excluded by construction and counted',
+                 'C1 controls U+0080..U+009F count as control characters (invalid) per the statement',
                  'codes beginning with U+FEFF are not generated (storage artefact recorded under C07)',
                  'cif_normalize is exercised on well-formed, NUL-free UTF-16 only; srclen cuts fall on code point boundaries',
                  'retrieved spelling is demanded to be the creation spelling for container codes and loop item names; after set_value under an '
